@@ -1,3 +1,243 @@
-import DaeVerif.C20.Proofs
+import DaeVerif.C20.Live
+/-!
+# C20 — property theorems
+
+*Reload requests are serialised, answered, and never leave dae wedged.*
+
+All theorems are about `DaeVerif.C20.step` (Model.lean), the transition function the driver
+`c20drv` executes against the real code, and quantify over **every** reachable state, i.e. over all
+interleavings of signals, the main loop's sections, the worker's statements, the release
+goroutines' sections and retirement completions, with any path (any failure) chosen at every
+stage.  `tokens s` (Proofs.lean) counts the requests in progress: queued, held by the worker, handed
+to the main loop, or waiting for the old generation to retire.
+-/
 namespace DaeVerif.C20.Props
+open DaeVerif.C20
+
+/-! ### helpers for the non-vacuity examples -/
+
+theorem reachable_of_run {acts : List Act} {s : St} (h : runActs init acts = some s) : Reachable s :=
+  reachable_run Reachable.init h
+
+/-- accept one reload, let the worker pick it up (path 4: full reload with retirement). -/
+def exAccepted : List Act := [.sig .reload, .stepM, .stepM]
+def exWorkerBusy : List Act := exAccepted ++ [.wStart 4, .stepW, .stepW]
+
+/-! ### serialisation -/
+
+/-- **At most one reload or suspend is in progress.**  In every reachable state of a running
+daemon the number of requests in progress equals `[pending]`, hence is 0 or 1. -/
+theorem at_most_one_in_progress {s : St} (hr : Reachable s) (hx : s.exited = false) :
+    tokens s = s.pending.toNat ∧ tokens s ≤ 1 := by
+  have h := (reachable_inv hr hx).tok
+  refine ⟨h, ?_⟩
+  rw [h]; cases s.pending <;> simp
+
+example : ∃ s, Reachable s ∧ s.exited = false ∧ tokens s = 1 ∧ s.queue = [.reload] :=
+  ⟨_, reachable_of_run (acts := exAccepted) rfl, rfl, rfl, rfl⟩
+
+/-- A signal is accepted (the CAS on `pending` succeeds) only when nothing is in progress, and then
+exactly one request is. -/
+theorem accept_only_when_idle {s s' : St} {k : Kind} {rest : List Micro} (hr : Reachable s)
+    (hx : s.exited = false) (hm : s.m = .casQ k :: rest) (hs : step s .stepM = some s')
+    (hacc : s'.pending = true ∧ s.pending = false) : tokens s = 0 ∧ tokens s' = 1 := by
+  have h0 := (at_most_one_in_progress hr hx).1
+  have hr' : Reachable s' := Reachable.step _ hr hs
+  have hx' : s'.exited = false := by
+    simp only [step, hx, hm, exec, hacc.2, Bool.false_eq_true, if_false, Option.some.injEq] at hs
+    rw [← hs]
+  have h1 := (at_most_one_in_progress hr' hx').1
+  rw [hacc.2] at h0; rw [hacc.1] at h1
+  exact ⟨by simpa using h0, by simpa using h1⟩
+
+example : ∃ s s', Reachable s ∧ s.m = [.casQ .reload] ∧ step s .stepM = some s' ∧ s'.pending = true ∧
+    s.pending = false :=
+  ⟨_, _, reachable_of_run (acts := [.sig .reload]) rfl, rfl, rfl, rfl, rfl⟩
+
+/-- **A refused request changes nothing except the busy report.**  While a request is in progress
+(`pending`), every section the main loop runs for a second signal — the failed CAS, the busy
+report, and (fixed code, 4876faa) the re-check with its possible clean-up — leaves every component
+of the state except the progress file (and the main loop's own program counter) untouched; this
+holds section by section, so also under any interleaving with the request in progress. -/
+theorem refusal_is_pure {s s' : St} {x : Micro} {rest : List Micro} (hm : s.m = x :: rest)
+    (hx : (∃ k, x = .casQ k ∧ s.pending = true) ∨ (∃ b, x = .writeBusy b) ∨ x = .readProg ∨ x = .writeClr)
+    (hs : step s .stepM = some s') :
+    s' = { s with progress := s'.progress, m := s'.m } := by
+  unfold step at hs
+  cases hex : s.exited
+  case true => simp [hex] at hs
+  simp only [hex, hm, Bool.false_eq_true, if_false, Option.some.injEq] at hs
+  rcases hx with ⟨k, rfl, hp⟩ | ⟨b, rfl⟩ | rfl | rfl
+  · simp only [exec, hp, if_true] at hs; rw [← hs]; simp [hp, hex]
+  · simp only [exec] at hs; rw [← hs]; simp [hex]
+  · simp only [exec] at hs; rw [← hs]; simp [hex]
+  · simp only [exec] at hs; rw [← hs]; simp [hex]
+
+example : ∃ s : St, s.m = [.casQ .suspend] ∧ s.pending = true ∧ (step s .stepM).isSome = true :=
+  ⟨{ pending := true, m := [.casQ .suspend], queue := [.reload], suppress := 1 }, rfl, rfl, rfl⟩
+
+/-- **A refused request is reported as busy**: from any state with a request in progress, the main
+loop's two sections for a further signal end with a busy progress report, and nothing else changed. -/
+theorem refusal_reports_busy {s : St} {k : Kind} (hm : s.m = []) (hp : s.pending = true)
+    (hx : s.exited = false) :
+    runActs s [.sig k, .stepM, .stepM] = some { s with progress := busyOf s.active } ∧
+    (busyOf s.active).isBusy = true := by
+  constructor
+  · simp [runActs, step, hx, hm, exec, hp]
+  · cases s.active <;> rfl
+
+example : ∃ s, Reachable s ∧ s.m = [] ∧ s.pending = true ∧ s.exited = false :=
+  ⟨_, reachable_of_run (acts := exWorkerBusy) rfl, rfl, rfl, rfl⟩
+
+/-- The "queue full" rollback branch of `tryQueueReloadRequest` is dead: whenever the main loop is
+about to send, the one-slot queue is empty. -/
+theorem queue_full_branch_unreachable {s : St} {k : Kind} {rest : List Micro} (hr : Reachable s)
+    (hx : s.exited = false) (hm : s.m = .beginSend k :: rest) : s.queue = [] := by
+  have h := (reachable_inv hr hx).tok
+  have hp : s.pending.toNat ≤ 1 := toNat_le_one _
+  simp only [tokens, hm, wsum_cons, Micro.sigTok] at h
+  exact List.eq_nil_of_length_eq_zero (by omega)
+
+example : ∃ s, Reachable s ∧ s.exited = false ∧ s.m = [.beginSend .reload] :=
+  ⟨_, reachable_of_run (acts := [.sig .reload, .stepM]) rfl, rfl, rfl⟩
+
+/-- `coalesceReloadRequest` never drops a request: when the worker drains the queue it is empty. -/
+theorem coalesce_drops_nothing {s : St} {rest : List Micro} (hr : Reachable s)
+    (hx : s.exited = false) (hw : s.w = .coalesce :: rest) : s.queue = [] := by
+  have hI := reachable_inv hr hx
+  have h := hI.tok
+  have hwf := hI.wfw
+  have hp : s.pending.toNat ≤ 1 := toNat_le_one _
+  simp only [hw, wfW, Bool.and_eq_true, decide_eq_true_eq] at hwf
+  simp only [tokens, hw, wsum_cons, Micro.tokW] at h
+  exact List.eq_nil_of_length_eq_zero (by omega)
+
+example : ∃ s rest, Reachable s ∧ s.exited = false ∧ s.w = .coalesce :: rest :=
+  ⟨_, _, reachable_of_run (acts := exAccepted ++ [.wStart 4, .stepW]) rfl, rfl, rfl⟩
+
+/-! ### the muting of node-failure reports -/
+
+/-- **The suppression counter equals the number of `End…Suppression` calls still due** (one per
+request in progress, plus one per release that has cleared `pending` but not yet ended its
+suppression scope). -/
+theorem suppression_balanced {s : St} (hr : Reachable s) (hx : s.exited = false) :
+    s.suppress = owed s :=
+  (reachable_inv hr hx).sup
+
+example : ∃ s, Reachable s ∧ s.exited = false ∧ s.suppress = 1 :=
+  ⟨_, reachable_of_run (acts := exWorkerBusy) rfl, rfl, rfl⟩
+
+/-- `EndReloadProxyFailureSuppression` is never called with the counter at 0 (its clamp is never
+exercised, so no scope is ever lost). -/
+theorem end_suppression_never_clamped {s : St} (hr : Reachable s) (hx : s.exited = false)
+    (h : (∃ rest, s.m = .endSupp :: rest) ∨ (∃ rest, s.w = .endSupp :: rest) ∨ 0 < s.gEnd) :
+    0 < s.suppress := by
+  have hs := (reachable_inv hr hx).sup
+  simp only [owed] at hs
+  rcases h with ⟨rest, h⟩ | ⟨rest, h⟩ | h
+  · simp only [h, wsum_cons, Micro.sup] at hs; omega
+  · simp only [h, wsum_cons, Micro.sup] at hs; omega
+  · omega
+
+/-! ### never wedged -/
+
+/-- **A settled daemon is clean**: in a reachable state of a running daemon in which nothing can
+move by itself (no section left to run, no queued request, no pending notification, no retirement
+running), no request is in progress, the suppression is lifted, no flag is stuck and the progress
+file does not say busy — whatever happened before (success, failure at any stage, rejections). -/
+theorem settled_is_clean {s : St} (hr : Reachable s) (hx : s.exited = false) (hq : quiescent s = true) :
+    s.pending = false ∧ s.suppress = 0 ∧ s.progress.isBusy = false ∧ s.active = false ∧
+    s.reloading = false ∧ s.queue = [] :=
+  have hi := idle_of_quiescent hq hx
+  have h := clean_of_idle (reachable_inv hr hx) hi
+  ⟨h.1, h.2.1, h.2.2.1, h.2.2.2.1, h.2.2.2.2, hi.queue⟩
+
+/-- a failed reload (config error), fully settled. -/
+def exFailedSettled : List Act :=
+  exAccepted ++ [.wStart 0] ++ List.replicate 10 .stepW
+
+example : ∃ s, Reachable s ∧ s.exited = false ∧ quiescent s = true ∧ s.progress = .error :=
+  ⟨_, reachable_of_run (acts := exFailedSettled) rfl, rfl, by decide, rfl⟩
+
+/-- **No stale busy report** (the defect repaired by 4876faa): a busy report in the progress file
+is always covered — a request is in progress, or some goroutine still has the read that will clear
+it ahead.  In particular no reachable settled state has `pending = false ∧ progress = busy`; this
+covers every interleaving of the refuser's sections with the releaser's sections. -/
+theorem no_stale_busy_when_idle {s : St} (hr : Reachable s) (hx : s.exited = false)
+    (hb : s.progress.isBusy = true) :
+    s.pending = true ∨ anyRd s.m = true ∨ anyRd s.w = true ∨ 0 < s.gStore + s.gEnd + s.gRead + s.gWrite :=
+  (reachable_inv hr hx).busy hb
+
+/-- the schedule of the repaired defect: reload succeeds, old generation retiring, second request
+refused; the release goroutine runs completely between the refuser's CAS and its busy report. -/
+def exStaleBusy : List Act :=
+  exAccepted ++ [.wStart 4] ++ List.replicate 12 .stepW ++ [.wake 5] ++ List.replicate 5 .stepM ++
+  [.sig .reload, .stepM, .closeG, .gStore, .gEnd, .gRead, .stepM]
+
+example : ∃ s, Reachable s ∧ s.exited = false ∧ s.progress.isBusy = true ∧ s.pending = false ∧
+    s.m = [.readProg] :=
+  ⟨_, reachable_of_run (acts := exStaleBusy) rfl, rfl, rfl, rfl, rfl⟩
+
+/-- **Whatever the scheduler does, the system's own steps run out**: a run of `n` internal steps
+(worker statements, main-loop sections, release goroutines, retirement completions, wake-ups) from
+`s` satisfies `n ≤ mu s`; no livelock. -/
+theorem internal_steps_terminate {s s' : St} {acts : List Act} (hint : ∀ a ∈ acts, a.isExternal = false)
+    (h : runActs s acts = some s') : acts.length ≤ mu s := by
+  have := run_length_le hint h; omega
+
+example : ∀ a ∈ exFailedSettled.drop 1, a.isExternal = false := by decide
+
+/-- **No deadlock while a request is in progress**: some internal step is enabled. -/
+theorem pending_implies_progress_possible {s : St} (hr : Reachable s) (hx : s.exited = false)
+    (hp : s.pending = true) : ∃ a ∈ internalActs, (step s a).isSome = true :=
+  progress_possible (reachable_inv hr hx) hx hp
+
+/-- **dae accepts a new request again**: from every reachable state the system's own steps lead
+(and by `internal_steps_terminate` every maximal run of them leads) to a state where nothing moves
+any more; there the daemon has exited or is clean (`settled_is_clean`), and the next signal is
+accepted and queued. -/
+theorem eventually_accepts_again {s : St} (hr : Reachable s) :
+    ∃ acts s', (∀ a ∈ acts, a.isExternal = false) ∧ runActs s acts = some s' ∧ quiescent s' = true ∧
+      (s'.exited = true ∨
+        (s'.pending = false ∧ s'.suppress = 0 ∧ s'.progress.isBusy = false ∧
+          ∀ k, ∃ s'', runActs s' [.sig k, .stepM, .stepM] = some s'' ∧ s''.pending = true ∧
+            s''.queue = [k] ∧ s''.suppress = 1)) := by
+  obtain ⟨acts, s', h1, h2, h3⟩ := settles (mu s) (s := s) (Nat.le_refl _)
+  refine ⟨acts, s', h1, h2, h3, ?_⟩
+  cases hx : s'.exited
+  · right
+    have hr' := reachable_run hr h2
+    have hc := settled_is_clean hr' hx h3
+    have hi := idle_of_quiescent h3 hx
+    refine ⟨hc.1, hc.2.1, hc.2.2.1, fun k => ?_⟩
+    refine ⟨{ s' with pending := true, suppress := s'.suppress + 1, queue := s'.queue ++ [k], m := [] }, ?_, rfl, ?_, ?_⟩
+    · simp [runActs, step, hx, hi.m, exec, hc.1, hi.queue]
+    · simp [hi.queue]
+    · simp [hc.2.1]
+  · left; rfl
+
+example : ∃ s, Reachable s ∧ s.pending = true ∧ s.gBlocked = 1 :=
+  ⟨_, reachable_of_run (acts := exAccepted ++ [.wStart 4] ++ List.replicate 12 .stepW ++ [.wake 5] ++
+      List.replicate 5 .stepM) rfl, rfl, rfl⟩
+
+/-! ### answered -/
+
+/-- does the effect list write an answer (Error / result) before it gives the request away? -/
+def answersBeforeRelease : List Eff → Bool
+  | [] => true
+  | .setProg .error :: _ => true
+  | .result :: _ => true
+  | .clearPending :: _ => false
+  | .finishFail :: _ => false
+  | .finishSucc :: _ => false
+  | _ :: rest => answersBeforeRelease rest
+
+/-- **Every outcome is answered**: every path of the worker starts by writing `Processing`, and
+every path (worker or run-state handler) that releases the request has written its answer (Error,
+or Done/Error according to the recorded reload error) before it does so. -/
+theorem paths_answered :
+    (∀ p ∈ workerPaths, (p.take 3).contains (.setProg .processing) = true ∧ answersBeforeRelease p = true) ∧
+    (∀ p ∈ handlerPaths, answersBeforeRelease p.effs = true) := by
+  decide
+
 end DaeVerif.C20.Props
